@@ -1,5 +1,5 @@
 """C05 - header rules: proof of work, difficulty, height, time, evidence; own assembly is valid."""
-from .. import blockcheck, cands, ledger, refmodel, seams, world
+from .. import blockcheck, cands, enc, ledger, refmodel, seams, world
 from ..world import K
 from . import c01
 
@@ -192,8 +192,42 @@ def _miner_worker(cfgs):
     return n, out
 
 
+def _node_header_worker(share):
+    """the header rules at the level of the node: every C05 candidate on the head is relayed by a peer to a real node (the
+    message header's time stamp forged to the block's own); a block the reference validator refuses at the node's clock
+    must not enter the node's chain state"""
+    from . import c09
+    from .. import cands
+    i, k = share
+    c09.setup_worker()
+    w0 = c09.World()
+    head = w0.fc.head()
+    w0.close()
+    cl = [c for c in cands.c05_candidates(head, w0.uni) if c.wire() is not None]
+    out = []
+    n = 0
+    for c in cl[i::k]:
+        w = c09.World()
+        try:
+            now = c.now if c.now is not None else head.ts + 3000
+            tags = refmodel.validate_block(c.block, head, now)
+            w.deliver_block(c.block, now)
+            n += 1
+            if enc.blockid(c.block) in w.node.cm.coinstate.block_by_hash and tags:
+                out.append(('node-accepts-' + c.name, "relayed block '%s' enters the node's chain state although it breaks %s at the "
+                            "node's clock" % (c.name, sorted(tags)), c.name))
+        finally:
+            w.close()
+    return n, out
+
+
 def run(ctx):
-    # the miner-watcher part first: its workers are forked before this module's seams are installed
+    # node-level and miner-watcher parts first: their workers are forked before this module's seams are installed
+    nres = ctx.pmap(_node_header_worker, [(i, 8) for i in range(8)])
+    for n, out in nres:
+        for key, what, cname in out:
+            ctx.violation(key, what, {'kind': 'node', 'cand': cname})
+    ctx.cov['node_level_relays'] = sum(n for n, _ in nres)
     mres = ctx.pmap(_miner_worker, [MINER_CONFIGS[i::8] for i in range(8)])
     for n, out in mres:
         for key, what, cfg in out:
@@ -240,6 +274,11 @@ def run(ctx):
 
 
 def replay(data, ctx):
+    if data.get('kind') == 'node':
+        out = []
+        for i in range(8):
+            out += [(k, w) for k, w, c in _node_header_worker((i, 8))[1] if c == data['cand']]
+        return out
     if data.get('kind') == 'miner':
         c = data['cfg']
         it = c[3] if isinstance(c[3], str) else (c[3][0], tuple(c[3][1]))
